@@ -734,3 +734,64 @@ def rule_I7(ctx):
     ctx.ob("I7", ctx.prog.module("smpl_extract/base.py").tree.body[0], "constructor arguments and attribute stores were examined", n >= 300, f"{n} sinks", inst="sinks-examined",
            file="smpl_extract/base.py", qualname="<module>")
     ctx.fact("I7", "sinks", n)
+
+
+# ------------------------------------------------------------------------ I8
+_MUTATORS = {"sort", "reverse", "append", "extend", "insert", "pop", "remove", "clear", "update", "setdefault", "popitem", "add", "discard"}
+
+
+def rule_I8(ctx):
+    """memoised collections (a property that hands out a cached `self._x`) are shared by every later ls / export of the opened
+    image: outside the code that builds them nobody changes them in place (sort, reverse, append, pop, item assignment, del...)"""
+    # memo properties: every return is the cached attribute (directly or through a local copy of it)
+    memo = {}
+    for m, q, fn in ctx.prog.all_functions():
+        if not ctx.prog.is_property(fn):
+            continue
+        rets = [r for r in own_nodes(fn) if isinstance(r, ast.Return) and r.value is not None]
+        stores = {dotted(t) for a in own_nodes(fn) if isinstance(a, ast.Assign) for t in a.targets if isinstance(t, ast.Attribute) and (dotted(t) or "").startswith("self._")}
+        if rets and stores and any(dotted(r.value) in stores for r in rets):
+            memo.setdefault(fn.name, []).append(q)
+    n = 0
+    for m, q, fn in ctx.prog.all_functions():
+        if ctx.prog.is_property(fn) and fn.name in memo:
+            continue
+        aliases = {}
+        for a in own_nodes(fn):
+            if isinstance(a, ast.Assign) and len(a.targets) == 1 and isinstance(a.targets[0], ast.Name) and isinstance(a.value, ast.Attribute) and a.value.attr in memo:
+                aliases[a.targets[0].id] = norm(a.value)
+            elif isinstance(a, ast.For) and isinstance(a.iter, ast.Attribute) and a.iter.attr in memo:
+                pass
+
+        def memo_expr(e):
+            if isinstance(e, ast.Attribute) and e.attr in memo:
+                return norm(e)
+            if isinstance(e, ast.Name) and e.id in aliases:
+                # only when every assignment to that local is such a property read
+                defs_ = [x for x in own_nodes(fn) if isinstance(x, ast.Assign) and any(isinstance(t, ast.Name) and t.id == e.id for t in x.targets)]
+                if all(isinstance(x.value, ast.Attribute) and x.value.attr in memo for x in defs_):
+                    return aliases[e.id]
+            return None
+
+        for c in own_nodes(fn):
+            hit = None
+            if isinstance(c, ast.Call) and isinstance(c.func, ast.Attribute) and c.func.attr in _MUTATORS:
+                src = memo_expr(c.func.value)
+                if src:
+                    hit = (src, f".{c.func.attr}(...)")
+            elif isinstance(c, (ast.Assign, ast.AugAssign, ast.Delete)):
+                tg = c.targets if isinstance(c, (ast.Assign, ast.Delete)) else [c.target]
+                for t in tg:
+                    if isinstance(t, ast.Subscript):
+                        src = memo_expr(t.value)
+                        if src:
+                            hit = (src, " item assignment / deletion")
+                    elif isinstance(c, ast.AugAssign) and memo_expr(t):
+                        hit = (memo_expr(t), " augmented assignment")
+            if hit:
+                n += 1
+                ctx.ob("I8", c, "memoised collections are not changed in place by their users", False,
+                       f"`{norm(c)[:70]}` changes `{hit[0]}` ({hit[1].strip()}): the cached list every later ls / export sees is altered", inst=f"mutates:{m.path}:{q}:{hit[0]}", file=m.path)
+    ctx.ob("I8", ctx.prog.module("smpl_extract/structural.py").tree.body[0], "memoised collection properties were found and their users examined", len(memo) >= 5,
+           f"{sorted(memo)}", inst="memo-properties", file="smpl_extract/structural.py", qualname="<module>")
+    ctx.fact("I8", "memo properties", sorted(memo))
